@@ -14,6 +14,7 @@ type Entry struct {
 	T string `json:"t"` // reg | dir | sym | link | fifo
 	N string `json:"n"`
 	L string `json:"l,omitempty"`
+	M string `json:"m,omitempty"` // recorded permission bits in octal ("0555"); "" = 0644 for files, 0755 for directories
 }
 
 // Push is one call of Store.Push.
@@ -40,6 +41,7 @@ type Case struct {
 func reg(n string) Entry     { return Entry{T: "reg", N: n} }
 func dir(n string) Entry     { return Entry{T: "dir", N: n} }
 func sym(n, l string) Entry  { return Entry{T: "sym", N: n, L: l} }
+func dirm(n, m string) Entry { return Entry{T: "dir", N: n, M: m} }
 func link(n, l string) Entry { return Entry{T: "link", N: n, L: l} }
 
 // vocab is the reduced vocabulary that is enumerated exhaustively (title
@@ -73,6 +75,8 @@ var vocab = []Entry{
 	/*22*/ reg("pkg/y"),
 	/*23*/ dir("pkg/d/o"), // directory over a directory link
 	/*24*/ sym("pkg/d/f", "s/../../outdir/newfile"), // DANGLING: new file in an existing outside directory
+	/*25*/ dirm("pkg/d/o", "0555"), // directory its owner may not write to; entry 6 can replace it (still empty) by a link to $ROOT/a
+	/*26*/ link("pkg/d/f", "keep"), // hard link whose NAME is taken by an earlier link; its source pkg/d/keep is pre-populated
 }
 
 // followUps are pushed, one after the other, after an enumerated archive in
@@ -380,16 +384,49 @@ func genEntry(rng *rand.Rand, title string, earlier []Entry) Entry {
 	if len(linkNames) > 0 && rng.IntN(100) < 22 {
 		// an entry over an earlier link (dangling or not): the shape that must replace the link, never follow it
 		n = pick(rng, linkNames)
-		if rng.IntN(4) > 0 {
+		switch r := rng.IntN(10); {
+		case r < 6:
 			return reg(n)
+		case r < 8:
+			return dirm(n, pick(rng, []string{"", "0555", "0300", "0000"}))
+		default:
+			// a HARD LINK entry whose name is taken by the earlier link, with an existing source
+			src := "keep"
+			for _, e := range earlier {
+				if e.T == "reg" && rng.IntN(2) == 0 {
+					if r, err := filepath.Rel(filepath.Dir(cleanRel(n)), cleanRel(e.N)); err == nil {
+						src = r
+					}
+				}
+			}
+			return link(n, src)
 		}
-		return dir(n)
+	}
+	var dirNames []string
+	for _, e := range earlier {
+		if e.T == "dir" {
+			dirNames = append(dirNames, e.N)
+		}
+	}
+	if len(dirNames) > 0 && len(linkNames) > 0 && rng.IntN(100) < 15 {
+		// a link entry replacing an earlier (still empty) directory entry
+		n = pick(rng, dirNames)
+		return sym(n, genTarget(rng, title, n, earlier))
 	}
 	switch r := rng.IntN(100); {
 	case r < 33:
-		return reg(n)
+		e := reg(n)
+		if rng.IntN(5) == 0 {
+			e.M = pick(rng, []string{"0444", "0000", "0755", "0600", "04755"})
+		}
+		return e
 	case r < 47:
-		return dir(n)
+		e := dir(n)
+		if rng.IntN(2) == 0 {
+			// directories recorded without owner write / search permission, and other non-default modes
+			e.M = pick(rng, []string{"0555", "0555", "0500", "0300", "0000", "0700", "0777", "0111", "01777"})
+		}
+		return e
 	case r < 78:
 		return sym(n, genTarget(rng, title, n, earlier))
 	case r < 96:
@@ -753,7 +790,11 @@ func (c Case) pattern() string {
 				reuse = fmt.Sprintf("=%d", j)
 			}
 			seen[n] = i
-			fmt.Fprintf(&b, "%s%s%s%s,", e.T[:1], targetClass(e.N)[:1], reuse, targetClass(e.L))
+			mode := ""
+			if e.M != "" {
+				mode = "m" + e.M
+			}
+			fmt.Fprintf(&b, "%s%s%s%s%s,", e.T[:1], targetClass(e.N)[:1], reuse, targetClass(e.L), mode)
 		}
 		b.WriteString("]" + p.Checksum + p.Fail)
 	}
